@@ -5,12 +5,13 @@
    Reference: one left-to-right pass.  Output buffer: every capacity 0 .. required + 1; the functions
    report no size on refusal, so the classes are "fail" below the output size and "ok" from it on. *)
 EXTENDS BsCap, TLC, Json
-CONSTANTS MaxItems
+CONSTANTS MaxItems, Tier
 VARIABLE items
 Specials == << 39, 34, 38, 60, 62 >>                                   \* ' " & < >
 Ents == << <<38,97,112,111,115,59>>, <<38,113,117,111,116,59>>, <<38,97,109,112,59>>, <<38,108,116,59>>, <<38,103,116,59>> >>
-Plain == { <<97>>, <<39>>, <<34>>, <<38>>, <<60>>, <<62>> }
-Coded == { Ents[i] : i \in 1 .. 5 } \cup { <<38, 108>>, <<38,97,109,112,59,108,116,59>> }
+Plain == IF Tier = "quick" THEN { <<97>>, <<38>>, <<60>> } ELSE { <<97>>, <<39>>, <<34>>, <<38>>, <<60>>, <<62>> }
+Coded == IF Tier = "quick" THEN { Ents[3], Ents[4], <<38, 108>> }
+         ELSE { Ents[i] : i \in 1 .. 5 } \cup { <<38, 108>>, <<38,97,109,112,59,108,116,59>> }
 Alphabet == Plain \cup Coded
 Init == items = << >>
 AddPlain == Len(items) < MaxItems /\ \E it \in Plain : items' = Append(items, it)
